@@ -134,6 +134,8 @@ type c06Route struct {
 	name string // "" = the plain route
 	site string // site blamed when Marshal fails on this route ("" = <type>.Marshal)
 	obj  c06Obj
+	// guard: a caller-owned buffer handed to the object as a sub-slice with spare capacity (h.Guarded); nil when the route has none
+	guard []byte
 }
 
 type c06Codec struct {
@@ -228,7 +230,10 @@ var c06Codecs = map[string]*c06Codec{
 		func(x *xStr) []c06Route {
 			s := types.NewSMB_STRING(append([]byte{}, x.Buffer...))
 			s.SetBufferFormat(types.UCHAR(x.BufferFormat))
-			return one(s)
+			g := h.Guarded(x.Buffer)
+			s2 := types.NewSMB_STRING(g)
+			s2.SetBufferFormat(types.UCHAR(x.BufferFormat))
+			return []c06Route{{obj: s}, {name: "buffer-with-spare-capacity", obj: s2, guard: g}}
 		},
 		func() c06Obj { return &types.SMB_STRING{} },
 		func(o c06Obj) *xStr { s := o.(*types.SMB_STRING); return &xStr{int(s.BufferFormat), h.Bytes(s.Buffer)} },
@@ -241,7 +246,11 @@ var c06Codecs = map[string]*c06Codec{
 			a := types.NewOEM_STRINGFromString(string(x.Buffer))
 			b := types.NewOEM_STRING()
 			b.SetString(string(x.Buffer))
-			return []c06Route{{obj: a}, {name: "SetString", obj: b}}
+			g := h.Guarded(x.Buffer)
+			d := types.NewOEM_STRING()
+			d.Buffer = g
+			d.Length = types.USHORT(len(g))
+			return []c06Route{{obj: a}, {name: "SetString", obj: b}, {name: "buffer-with-spare-capacity", obj: d, guard: g}}
 		},
 		func() c06Obj { return &types.OEM_STRING{} },
 		func(o c06Obj) *xOem { return &xOem{h.Bytes(o.(*types.OEM_STRING).Buffer)} },
@@ -550,6 +559,9 @@ func c06Types(c *h.Ctx) error {
 			}
 			c.Exec(1)
 			c.Retain(msite, b, map[string]interface{}{"type": ln.T})
+			if rt.guard != nil && !h.GuardIntact(rt.guard) {
+				c.Fail(msite, "writes-behind-its-argument", "Marshal wrote into the spare capacity of the caller's buffer (the bytes behind the string in the caller's array changed)", c06SampleOf(ln.T, ln.V, nil, nil))
+			}
 			if merr != nil {
 				c.Fail(msite, "marshal-error", fmt.Sprintf("in-domain value cannot be encoded (route %q): %v", rt.name, merr), c06SampleOf(ln.T, ln.V, nil, nil))
 				continue
